@@ -1093,6 +1093,11 @@ def unify_types(t1: tp.Type, t2: tp.Type, factory,
         if t_arg2.is_wildcard():
             if t_arg1.variance != t_arg2.variance:
                 return {}
+            if t_arg1.bound is None or t_arg2.bound is None:
+                # Star projections (no bound) only unify with each other.
+                if t_arg1.bound is None and t_arg2.bound is None:
+                    continue
+                return {}
             t_arg2 = t_arg2.bound
             t_arg1 = t_arg1.bound
 
